@@ -200,7 +200,11 @@ theorem ns_hofKeys (c : ICtx) (a : Nat) : ∀ (xs : Seq) (D : Env) (acc : List (
 omit hs in
 theorem ns_evArith (op : AOp) (a b : Expr) (c : ICtx) (D : Env) : NS (evArith ev op a b c D) := by
   unfold evArith
-  exact NS.bnd (hev _ _ _) (fun _ => NS.bnd (hev _ _ _) (fun _ => NS.bnd (NS.lift _) (fun _ => NS.ret _)))
+  apply NS.bnd (hev _ _ _); intro x
+  split
+  · exact NS.thr _
+  · exact NS.ret _
+  · exact NS.bnd (hev _ _ _) (fun _ => NS.bnd (NS.lift _) (fun _ => NS.ret _))
 
 omit hs in
 theorem ns_evCompare (op : COp) (a b : Expr) (c : ICtx) (D : Env) : NS (evCompare ev op a b c D) := by
@@ -260,6 +264,11 @@ theorem ns_step (e : Expr) (c : ICtx) (D : Env) : NS (step cfg ev e c D) := by
     split
     · exact ns_partialApply cfg hs ev hev _ _ _ _
     · exact NS.bnd (ns_evalList ev hev _ _ _) (fun _ => ns_callFn cfg hs ev hev _ _ _ _)
+  | spart b args =>
+    simp only [step]
+    split
+    · exact NS.bnd (ns_evalArgs ev hev _ _ _) (fun _ => NS.bnd (NS.alloc _) (fun _ => NS.ret _))
+    · exact NS.thr _
   | par e => exact hev _ _ _
   | smap a b =>
     simp only [step]
